@@ -40,7 +40,7 @@ pub fn all() -> Vec<PropDef> {
         PropDef {
             id: "C01",
             level: "fault_enumeration",
-            rule: "the real roughenough-client binary with a pinned key (hex or base64) runs against a UDP mock that returns forgeries of honest reference responses built for the client's actual request(s): fixed table of 12 components x 5 edit kinds + structural forgeries (PATH add/remove/swap, other index, re-signed by a different long-term key, whole other key, delegation window below/above, cross-context certificate, cross-protocol shapes, cross-request splices, replays from earlier processes, truncation/extension) x 2 versions x 2 key formats; thorough: every byte offset and ~675 truncation lengths; plus proptest plans (1..=4 requests per run, batch 1..=64, any index, midpoints epoch..9999). Oracle = lenient reference verifier on the delivered bytes: first non-authentic response k => exit != 0 and at most k time lines; all nonces ever seen pairwise distinct. Non-trivial = delivered response that still parses but is unauthentic; distinct by (version, key format, forgery kind, bytes)",
+            rule: "the real roughenough-client binary with a pinned key (hex or base64) runs against a UDP mock that returns forgeries of honest reference responses built for the client's actual request(s): fixed table of 12 components x 5 edit kinds + structural forgeries (PATH add/remove/swap, other index, re-signed by a different long-term key, whole other key, delegation window below/above, cross-context certificate, cross-protocol shapes, cross-request splices, replays from earlier processes, truncation/extension) x 2 versions x 2 key formats; thorough: every byte offset and ~675 truncation lengths; plus proptest plans (1..=64 requests per run, batch 1..=64, any index, midpoints epoch..9999). Oracle = lenient reference verifier on the delivered bytes: first non-authentic response k => exit != 0 and at most k time lines; all nonces ever seen pairwise distinct. Non-trivial = delivered response that still parses but is unauthentic; distinct by (version, key format, forgery kind, bytes)",
             assumptions: &["lenient verifier (refproto.rs) is authentic-biased: anything arguably authentic imposes no obligation", "client timeouts / spawn failures are harness faults (exit 2), never violations", "an attacker cannot forge Ed25519 signatures (forgeries are limited to what the mock can compute with its own keys and the genuine online key it legitimately holds)"],
             shards: s16,
             timeout_s: t_std,
@@ -50,7 +50,7 @@ pub fn all() -> Vec<PropDef> {
         PropDef {
             id: "C03",
             level: "exploration",
-            rule: "the real client binary runs against two honest peers: the reference responder (own keys, generated midpoints from the epoch to 9999-12-31) and the real in-process Server behind a relay that places the client's request at a chosen index of a real batch; grid version x key option (none/hex/base64) x peer x batch size x position (path depth 0..=6) plus proptest plans (1..=4 requests, output modes plain/-v/-j/default format). Oracle = client's requests are standard, exit 0, printed (secs, nanos) equal the signed MIDP converted from the protocol's unit (civil date compared independently for the default format), verified flag iff a key was given; only responses the strict verifier accepts count. Non-trivial = accepted response at index >= 1 or from the reference peer with a generated midpoint; distinct by plan",
+            rule: "the real client binary runs against two honest peers: the reference responder (own keys, generated midpoints from the epoch to 9999-12-31) and the real in-process Server behind a relay that places the client's request at a chosen index of a real batch; grid version x key option (none/hex/base64) x peer x batch size x position (path depth 0..=6) plus proptest plans (1..=64 requests per run, output modes plain/-v/-j/default format). Oracle = client's requests are standard, exit 0, printed (secs, nanos) equal the signed MIDP converted from the protocol's unit (civil date compared independently for the default format), verified flag iff a key was given; only responses the strict verifier accepts count. Non-trivial = accepted response at index >= 1 or from the reference peer with a generated midpoint; distinct by plan",
             assumptions: &["reference responder output is asserted to pass the strict verifier before it counts", "real-server replies that fail strict verification are C02's business (case inconclusive here)"],
             shards: s16,
             timeout_s: t_std,
